@@ -128,6 +128,12 @@ class Oracle:
             b, i = unhx(t[1]), int(t[2])
             return "ok %d" % (b[i] if i < len(b) else 0)
         buf, off = unhx(t[1]), int(t[2])
+        ma = re.fullmatch(r"p\.f_([au])arr(8|16|32|64)", op)
+        if ma:
+            if ma.group(1) == "a" and off % 8:
+                return None
+            nb = int(t[3]) * int(ma.group(2)) // 8
+            return f"ok {hx(self.field(buf, len(buf), off, 8 * nb).to_bytes(nb, 'little'))} {off + 8 * nb}"
         mf = re.fullmatch(r"p\.(add|f)_([au])f(16|32|64)", op)
         if mf and mf.group(1) == "f":           # fetch_*_f16/32/64: the W bits at the cursor, zero extended, as a float
             if mf.group(2) == "a" and off % 8:
@@ -781,10 +787,48 @@ def py_float_cases(ctx):
     return out
 
 
+def py_alias_cases(ctx):
+    """Results are independent objects: every array a fetch returns is modified in place by the wrapper (as an application
+    may do), then the same kind of read is repeated on a FRESH deserializer.  Executed first in the interpreter, in this
+    order, so that a failing record carries its complete history.  Covers reads wholly past the end (zero extension of
+    a truncated message), partly past the end, and inside the buffer."""
+    rng = ctx.rng
+    out = []
+    for size in (0, 1, 3):
+        h = hx(patterns(rng, size, 2))
+        for start in (size, size + 1, size + 9, max(0, size - 1), 0):       # byte index where the read starts
+            off = start * 8
+            for count in (1, 2, 4, 8, 64, 65):
+                out.append(f"p.f_abytes {h} {off} {count}")                 # result gets modified in place
+                out.append(f"p.f_abytes {h} {off} {count}")                 # same read again, fresh deserializer
+                out.append(f"p.slice {h} {start} {start + count}")
+                out.append(f"p.f_ubytes {h} {off} {count}")                 # aligned cursor: delegates to the aligned path
+                out.append(f"p.f_ubytes {h} {off + 3} {count}")
+            for w in (8, 16, 32, 64):
+                out.append(f"p.f_aarr{w} {h} {off} 3")
+                out.append(f"p.f_aarr{w} {h} {off} 3")
+                out.append(f"p.f_uarr{w} {h} {off + 5} 2")
+                out.append(f"p.f_au{w} {h} {off}")
+                out.append(f"p.f_ai{w} {h} {off}")
+            for n in (1, 7, 8, 9, 33, 64):
+                out.append(f"p.f_abits {h} {off} {n}")
+                out.append(f"p.f_abits {h} {off} {n}")
+                out.append(f"p.f_auns {h} {off} {n}")
+                out.append(f"p.f_uu {h} {off} {n}")
+                out.append(f"p.f_ubits {h} {off} {n}")
+            for w in (16, 32, 64):
+                out.append(f"p.f_af{w} {h} {off}")
+                out.append(f"p.f_uf{w} {h} {off}")
+    return [(l, "alias-seq") for l in out]
+
+
 def py_model_line(line):
     """The float wrappers are `struct.pack` (an external function, parameter of the model) followed by add_*_bytes, and
     fetch_*_bytes followed by `struct.unpack`: the model is asked for the byte-level operation."""
     t = line.split(" ")
+    ma = re.fullmatch(r"p\.f_([au])arr(8|16|32|64)", t[0])
+    if ma:      # array of standard primitives (little-endian host) = the bytes, reinterpreted
+        return f"p.f_{ma.group(1)}bytes {t[1]} {t[2]} {int(t[3]) * int(ma.group(2)) // 8}"
     m = re.fullmatch(r"p\.(add|f)_([au])f(16|32|64)", t[0])
     if not m:
         return line
@@ -915,6 +959,16 @@ class PyImpl:
         self.ns = importlib.import_module("nunavut_support")
         self.path = self.ns.__file__
 
+    def scribble(self, a):
+        """What an application may do with a result it was handed: modify it in place.  The sources given to the
+        deserializer are immutable `bytes`, so a result is either a read-only view of the source (the write raises) or a
+        fresh array; in neither case may a later call observe the write."""
+        try:
+            a[...] = True if a.dtype == bool else (0xA5 if a.dtype.itemsize == 1 else 0xA5A5)
+            self.scribbled = getattr(self, "scribbled", 0) + 1
+        except ValueError:          # read-only view of the immutable source
+            pass
+
     def ser(self, buf, off):
         s = self.ns.Serializer.new(0).__class__(self.np.frombuffer(bytearray(buf), dtype=self.np.uint8))
         s._bit_offset = off
@@ -945,7 +999,9 @@ class PyImpl:
         if op == "p.u2b":
             return "ok " + hx(bytes(ns.Serializer._unsigned_to_bytes(int(t[1]), int(t[2]))))
         if op == "p.slice":
-            return "ok " + hx(bytes(ns.ZeroExtendingBuffer([memoryview(unhx(t[1]))]).get_unsigned_slice(int(t[2]), int(t[3]))))
+            res = ns.ZeroExtendingBuffer([memoryview(unhx(t[1]))]).get_unsigned_slice(int(t[2]), int(t[3]))
+            r = "ok " + hx(bytes(res)); self.scribble(res)
+            return r
         if op == "p.byte":
             return "ok %d" % ns.ZeroExtendingBuffer([memoryview(unhx(t[1]))]).get_byte(int(t[2]))
         buf, off = unhx(t[1]), int(t[2])
@@ -976,10 +1032,15 @@ class PyImpl:
                 getattr(s, f"add_aligned_{m.group(1)}{m.group(2)}")(int(t[3]))
             return f"ok {hx(bytes(s._buf))} {s._bit_offset}"
         d = self.de(buf, off)
-        if op == "p.f_ubytes": r = hx(bytes(d.fetch_unaligned_bytes(int(t[3]))))
-        elif op == "p.f_abytes": r = hx(bytes(d.fetch_aligned_bytes(int(t[3]))))
-        elif op == "p.f_ubits": r = showbits(d.fetch_unaligned_array_of_bits(int(t[3])))
-        elif op == "p.f_abits": r = showbits(d.fetch_aligned_array_of_bits(int(t[3])))
+        ma = re.fullmatch(r"p\.f_([au])arr(8|16|32|64)", op)
+        if ma:
+            al = "aligned" if ma.group(1) == "a" else "unaligned"
+            res = getattr(d, f"fetch_{al}_array_of_standard_bit_length_primitives")(getattr(np, "uint" + ma.group(2)), int(t[3]))
+            r = hx(res.tobytes()); self.scribble(res)
+        elif op == "p.f_ubytes": res = d.fetch_unaligned_bytes(int(t[3])); r = hx(bytes(res)); self.scribble(res)
+        elif op == "p.f_abytes": res = d.fetch_aligned_bytes(int(t[3])); r = hx(bytes(res)); self.scribble(res)
+        elif op == "p.f_ubits": res = d.fetch_unaligned_array_of_bits(int(t[3])); r = showbits(res); self.scribble(res)
+        elif op == "p.f_abits": res = d.fetch_aligned_array_of_bits(int(t[3])); r = showbits(res); self.scribble(res)
         elif op == "p.f_ubit": r = "1" if d.fetch_unaligned_bit() else "0"
         elif op == "p.f_pad":
             d.pad_to_alignment(int(t[3]))
@@ -996,11 +1057,15 @@ class PyImpl:
         return f"ok {r} {d._bit_offset}"
 
 
+SEQ_STREAMS = ("float-seq", "alias-seq")
+
+
 def run_py(ctx, drv):
     cases, nexh, nrand = py_cases(ctx)
     corpus = load_corpus("py")
-    lines = list(corpus) + [c for c, _ in cases]
-    streams = ["corpus"] * len(corpus) + [s for _, s in cases]
+    alias = py_alias_cases(ctx)            # first: its history within this interpreter is then complete
+    lines = [c for c, _ in alias] + list(corpus) + [c for c, _ in cases]
+    streams = [s for _, s in alias] + ["corpus"] * len(corpus) + [s for _, s in cases]
     orc = Oracle()
     impl = PyImpl(ctx)
     ctx.extra.setdefault("domain", {})["py"] = {"corpus": len(corpus), "exhaustive_cases": nexh, "random_cases": nrand,
@@ -1010,7 +1075,7 @@ def run_py(ctx, drv):
     history = []        # the float-wrapper requests run so far in this interpreter (their outcome may depend on the order)
     for line, st, m in zip(lines, streams, model):
         a = impl.answer(line)
-        if st == "float-seq":
+        if st in SEQ_STREAMS:
             history.append(line)
         o = orc.answer(line)
         ctx.case(line, o is not None and nontrivial(line))
@@ -1028,8 +1093,13 @@ def run_py(ctx, drv):
                 ctx.fail({"kind": "contract", "target": "py", "op": op_of(line)},
                          "a Serializer/Deserializer primitive does not meet its contract (reference: big-integer bit arithmetic)",
                          dict({"target": "py", "request": line, "observed": a, "expected": o, "model": m},
-                              **({"history": history[-41:-1], "note": "run `history` first, in the same interpreter"} if st == "float-seq" else {})))
+                              **({"history": history[-41:-1] if st == "float-seq" else history[:-1],
+                                  "note": "run `history` first, in the same interpreter (the wrapper modifies every returned array in place)"}
+                                 if st in SEQ_STREAMS else
+                                 {"note": "every array returned earlier in this interpreter was modified in place by the wrapper; if this "
+                                          "request passes alone, see the alias-seq record"})))
     ctx.extra.setdefault("targets", {})["py-numpy"] = {"requests": len(lines), "within_contract": ncontract, "contract_failures": nfail}
+    ctx.extra["py_results_modified_in_place"] = getattr(impl, "scribbled", 0)
     ctx.sample({"request": lines[len(lines) // 2], "answer": impl.answer(lines[len(lines) // 2])})
 
 
